@@ -6,7 +6,6 @@ import (
 	"encoding/json"
 	"fmt"
 	"math/rand"
-	"os"
 	"sort"
 	"strings"
 
@@ -572,9 +571,6 @@ func init() {
 			rounds, maxOps = 12000, 24
 		} else if tier == "search" {
 			rounds, maxOps = 3000, 18
-		}
-		if v := os.Getenv("C06X_ROUNDS"); v != "" {
-			fmt.Sscan(v, &rounds)
 		}
 		w := c06xOpenWorld()
 		defer w.close()
